@@ -422,3 +422,149 @@ Proof.
     unfold attached in HI. apply negb_true_iff in HI. exact HI. }
   rewrite H1, H2, H3, H4. reflexivity.
 Qed.
+
+(* ------------------------------------------------------------------------------------------ *)
+(* 6. lifting 2 (guarded_swaps_sound) instantiated: static declarations with hazard_free as guard *)
+(* ------------------------------------------------------------------------------------------ *)
+(* for a static declaration the hazard classes reduce to "the issuer is detached" *)
+Definition static_hz_guard (o : op) (s : st) : bool :=
+  match o with
+  | OpDeclareStatic c ps => step_kind c && nodup_by str_eqb ps && hazard_free o s
+  | _ => false
+  end.
+
+Lemma static_hazard_free c ps s : hazard_free (OpDeclareStatic c ps) s = attached c s.
+Proof.
+  unfold hazard_free, hazards, hz_stale_volatile_input, hz_stale_wired_input, hz_recycle, hz_detached_issuer, attached.
+  cbn. destruct (is_detached c s); reflexivity.
+Qed.
+
+Lemma attached_equiv c s s' : st_equiv s s' -> attached c s = attached c s'.
+Proof. intros E. unfold attached. rewrite !is_detached_view, (eq_node _ _ E). reflexivity. Qed.
+
+Lemma static_hz_cong o s s' :
+  Pcore s -> Pcore s' -> st_equiv s s' -> static_hz_guard o s = true -> okb o s = true ->
+  static_hz_guard o s' = true /\ okb o s' = true /\ st_equiv (apply_op s o) (apply_op s' o).
+Proof.
+  intros Ps Ps' E G O. destruct o; try discriminate. cbn [static_hz_guard] in *.
+  apply andb_true_iff in G as [G Hz]. apply andb_true_iff in G as [Hk ND].
+  rewrite static_hazard_free in *.
+  assert (Ha' : attached creator s' = true) by (rewrite <- (attached_equiv creator s s' E); exact Hz).
+  destruct (static_cong [creator] (OpDeclareStatic creator paths) s s') as [Hok He]; try assumption.
+  - split; [left; reflexivity | apply (nodup_by_NoDup str_eqb str_eqb_eq); exact ND].
+  - apply Pcs_single; assumption.
+  - apply Pcs_single; assumption.
+  - split; [rewrite Hk, ND, Ha'; reflexivity|]. split; [rewrite <- Hok; exact O | exact He].
+Qed.
+
+Lemma Pcs_pair c1 c2 s : Pcore s -> step_kind c1 = true -> step_kind c2 = true ->
+  attached c1 s = true -> attached c2 s = true -> Pcs [c1; c2] s.
+Proof.
+  intros HP K1 K2 A1 A2. split; [apply core_parts; exact HP|].
+  intros c0 [<-|[<-|[]]]; (split; [apply step_kind_KStep; assumption | assumption]).
+Qed.
+
+Lemma static_hz_diamond a b s :
+  different_issuers a b -> Pcore s ->
+  static_hz_guard a s = true -> okb a s = true ->
+  static_hz_guard b (apply_op s a) = true -> okb b (apply_op s a) = true ->
+  static_hz_guard b s = true /\ okb b s = true /\ static_hz_guard a (apply_op s b) = true /\
+  okb a (apply_op s b) = true /\
+  st_equiv (apply_op (apply_op s a) b) (apply_op (apply_op s b) a).
+Proof.
+  intros D Ps Ga Oa Gb Ob.
+  destruct a as [c1 ps1| | | | | | | | | | | | | ]; try discriminate;
+  destruct b as [c2 ps2| | | | | | | | | | | | | ]; try discriminate.
+  cbn [static_hz_guard] in Ga, Gb. rewrite !static_hazard_free in *.
+  apply andb_true_iff in Ga as [Ga A1]. apply andb_true_iff in Ga as [K1 N1].
+  apply andb_true_iff in Gb as [Gb A2']. apply andb_true_iff in Gb as [K2 N2].
+  pose proof (different_issuers_neq _ _ c1 c2 D eq_refl eq_refl) as Hneq.
+  pose proof (nodup_by_NoDup str_eqb str_eqb_eq _ N1) as ND1.
+  pose proof (nodup_by_NoDup str_eqb str_eqb_eq _ N2) as ND2.
+  (* the issuer of b is attached before a's declaration as well: a static declaration does not touch
+     step nodes *)
+  assert (A2 : attached c2 s = true).
+  { destruct (okb_ok _ _ Oa) as [sa [Ra Ea]]. rewrite Ea in A2'.
+    pose proof (static_step_spec [c1] c1 ps1 s sa (Pcs_single c1 s Ps K1 A1) (or_introl eq_refl) ND1 Ra) as S.
+    pose proof (sd_node _ _ _ _ S) as SN. unfold attached in *. rewrite is_detached_view, SN in A2'.
+    assert (Hin : in_files c2 (filter (newb c1 s) ps1) = false).
+    { pose proof (step_kind_KStep c2 K2) as Hk. destruct c2 as [[] x]; try discriminate; reflexivity. }
+    rewrite Hin, <- is_detached_view in A2'. exact A2'. }
+  pose proof (Pcs_pair c1 c2 s Ps K1 K2 A1 A2) as HP.
+  destruct (static_diamond [c1; c2] (OpDeclareStatic c1 ps1) (OpDeclareStatic c2 ps2) s) as [Hacc Heq].
+  - exact Hneq.
+  - split; [left; reflexivity | exact ND1].
+  - split; [right; left; reflexivity | exact ND2].
+  - exact HP.
+  - assert (A12 : accepted2 (OpDeclareStatic c1 ps1) (OpDeclareStatic c2 ps2) s = true)
+      by (apply accepted2_true; split; assumption).
+    rewrite A12 in Hacc. symmetry in Hacc. apply accepted2_true in Hacc as [Ob0 Oa'].
+    pose proof (Pcs_step [c1; c2] (OpDeclareStatic c2 ps2) s
+                  (conj (or_intror (or_introl eq_refl)) ND2) HP) as [_ HC].
+    destruct (HC c1 (or_introl eq_refl)) as [_ A1'].
+    split; [|split; [|split; [|split]]].
+    + cbn [static_hz_guard]. rewrite static_hazard_free, K2, N2, A2. reflexivity.
+    + exact Ob0.
+    + cbn [static_hz_guard]. rewrite static_hazard_free, K1, N1, A1'. reflexivity.
+    + exact Oa'.
+    + apply Heq. exact A12.
+Qed.
+
+(* Both clauses for static declarations with the decidable hazard guard: if ONE schedule is accepted
+   and hazard free, every reordering (each step's own order preserved) is accepted, hazard free and
+   ends in a graph that agrees on every look-up. *)
+Theorem static_one_schedule_suffices l1 l2 s :
+  inv_core_b s = true -> swaps different_issuers l1 l2 -> fine static_hz_guard l1 s = true ->
+  fine static_hz_guard l2 s = true /\ st_equiv (run_ops l1 s) (run_ops l2 s).
+Proof.
+  intros Ps S F.
+  exact (guarded_swaps_sound st_equiv Pcore different_issuers static_hz_guard
+           st_equiv_refl st_equiv_trans (fun o s0 H => inv_core_preserved s0 o H)
+           static_hz_cong static_hz_diamond l1 l2 S s Ps F).
+Qed.
+
+(* ------------------------------------------------------------------------------------------ *)
+(* 7. ingredients of clause 2 for define_step / amend_step: the cycle checks                    *)
+(* ------------------------------------------------------------------------------------------ *)
+From SV Require Import lib.Closure proofs.CommuteCycle.
+
+(* the cycle check is monotone in the SET of dependency edges: a request whose check passes after
+   another step's edges were added passes without them *)
+Lemma would_cycle_mono sink srcs s s' :
+  incl (dep_edges s) (dep_edges s') -> would_cycle sink srcs s = true -> would_cycle sink srcs s' = true.
+Proof.
+  intros HI H. apply would_cycle_spec in H as [x [Hx P]]. apply would_cycle_spec.
+  exists x. split; [exact Hx | eapply path_incl; eassumption].
+Qed.
+
+Corollary cycle_check_passes_with_fewer_edges sink srcs s s' :
+  incl (dep_edges s) (dep_edges s') -> would_cycle sink srcs s' = false -> would_cycle sink srcs s = false.
+Proof.
+  intros HI H. destruct (would_cycle sink srcs s) eqn:W; [|reflexivity].
+  rewrite (would_cycle_mono _ _ _ _ HI W) in H. discriminate.
+Qed.
+
+(* in a state with the invariant no edge closes a cycle: the sink of an edge does not reach its
+   source.  (The argument for the symmetric half: if b is accepted after a, the final state of
+   a;b is acyclic (inv_core_b is preserved), so a's own cycle check cannot fail in the order b;a,
+   whose edges are a subset of that final state's.) *)
+Lemma inv_edge_no_back_path s a b :
+  inv_core_b s = true -> In (a, b) (dep_edges s) -> ~ path (dep_edges s) b a.
+Proof.
+  unfold inv_core_b. intros H Hin P.
+  repeat (match type of H with (andb _ _ = true) => apply andb_true_iff in H as [H ?] end).
+  match goal with Ha : inv_acyclic_b s = true |- _ => unfold inv_acyclic_b in Ha; rewrite forallb_forall in Ha;
+    rename Ha into HA end.
+  unfold dep_edges in Hin. apply in_map_iff in Hin as [d [Ed Hd]]. inversion Ed; subst.
+  specialize (HA d Hd). apply negb_true_iff in HA.
+  apply rec_sinks_spec in P. congruence.
+Qed.
+
+Lemma would_cycle_false_in_acyclic_superstate sink src s t :
+  inv_core_b t = true -> incl (dep_edges s) (dep_edges t) -> In (src, sink) (dep_edges t) ->
+  would_cycle sink [src] s = false.
+Proof.
+  intros Ht HI He. destruct (would_cycle sink [src] s) eqn:W; [|reflexivity]. exfalso.
+  apply would_cycle_spec in W as [x [[<-|[]] P]].
+  eapply inv_edge_no_back_path; [exact Ht | exact He | eapply path_incl; eassumption].
+Qed.
